@@ -7,8 +7,8 @@ set -u
 ROOT="$(cd "$(dirname "$0")/.." && pwd)"
 cd "$ROOT"
 ids="${*:-$(ls seeded | grep -v matrix)}"
-checks="C01 C05 C06 C07 C08 C09 C10 C11 C12 C13 C14 C15 C17 C18 C19 C20"
-out="$ROOT/seeded/matrix.tsv"
+checks="${CHECKS:-C01 C05 C06 C07 C08 C09 C10 C11 C12 C13 C14 C15 C17 C18 C19 C20}"
+out="${MATRIX_OUT:-$ROOT/seeded/matrix.tsv}"
 : > "$out.tmp"
 for id in $ids; do
   [ -f "seeded/$id/patch.diff" ] || continue
